@@ -164,6 +164,9 @@ where
 {
     let tx = safe_apply_args(tx, args)?;
 
+    // the first round must not see the body of whatever this instance compiled before
+    compiler.reset();
+
     let max_optimize_rounds = max_optimize_rounds.max(3);
 
     let mut last_eval = None;
